@@ -20,7 +20,7 @@ def dispatch (op : String) (args : List Sx) (impl : Sx) : Option Outcome :=
   else if op.startsWith "ff." then ff B op args impl
   else if op.startsWith "ic." then ic B op args impl
   else if op.startsWith "lax.optic." || op.startsWith "optic." || op.startsWith "var." then opticG B op args impl
-  else if op == "lax.edit" then laxEdit B op args impl
+  else if op == "lax.edit" || op == "lax.quot" then laxEdit B op args impl
   else if op.startsWith "lax.functor." || op.startsWith "functor." then functorG B op args impl
   else if op.startsWith "lax." then laxCat B op args impl
   else if op.startsWith "hg." then hg B op args impl
